@@ -105,7 +105,12 @@ class Chan(Engine):
     @staticmethod
     def _gen_hrp(rng):
         n = rng.choice([1, 2, 3, 4, 10, 20])
-        return ''.join(rng.choice('abcdefghijklmnopqrstuvwxyz023456789-_.!~') for _ in range(n))
+        h = ''.join(rng.choice('abcdefghijklmnopqrstuvwxyz023456789-_.!~') for _ in range(n))
+        if rng.random() < 0.35:
+            # the separator is the LAST '1' of the string: a prefix may contain that digit itself
+            k = rng.randrange(n + 1)
+            h = (h[:k] + '1' + h[k:])[:max(n, 2)] if rng.random() < 0.7 else '1' * n
+        return h
 
     def systematic(self, prop, tier):
         plans = []
@@ -200,8 +205,13 @@ class Chan(Engine):
         # existing Base58Check object that carries ANOTHER version (re-tagging a payload for another chain)
         sel = a['multi'][0][2] if a['multi'] else 0
         other = B58.CBase58Data.from_bytes(payload, (ver + 1 + sel % 255) % 256)
+        try:
+            decoded_other = B58.CBase58Data(str(other))
+        except Exception as e:
+            ctx.check(False, 'C10.inverse', 'text form of (version %d, %d-byte payload) does not decode back: %s' % (other.nVersion, len(payload), type(e).__name__), plen=len(payload))
+            decoded_other = other
         for flavour, pl in (('bytearray', bytearray(payload)), ('Base58Check object of version %d' % other.nVersion, other),
-                            ('decoded Base58Check object', B58.CBase58Data(str(other)))):
+                            ('decoded Base58Check object', decoded_other)):
             try:
                 t2 = str(B58.CBase58Data.from_bytes(pl, ver))
             except Exception as e:
